@@ -123,6 +123,8 @@ pub fn settings(r: &mut Sm, thorough: bool) -> Vec<Spec> {
         let b: Vec<(f64, f64)> = (0..n).map(|_| *r.pick(&rb)).collect();
         v.push(Spec::plain(Wrap::R, CK::R { n, bounds: Some(b) }, None));
     }
+    // sides of equal length at different offsets
+    v.push(Spec::plain(Wrap::R, CK::R { n: 3, bounds: Some(vec![(0.0, 10.0), (2.0, 12.0), (-7.0, 3.0)]) }, None));
     // beyond 8 / 16 coordinates (block-wise loops have their own tails); finite bounds so that
     // sampling is exercised too
     let fin: Vec<(f64, f64)> = rb.iter().copied().filter(|b| b.0.is_finite() && b.1.is_finite() && (b.1 - b.0).is_finite()).collect();
